@@ -21,6 +21,13 @@ impl Shared {
     }
 }
 
+#[cfg(sonic_rs_verif)]
+impl Drop for Shared {
+    fn drop(&mut self) {
+        crate::verif::event(crate::verif::EV_ARENA_DROP, self as *const Shared as usize);
+    }
+}
+
 // #safety
 // we not export the immutable bump allocator, so `Sync`` is always safe here
 unsafe impl Sync for Shared {}
